@@ -1184,7 +1184,7 @@ class tensor:
         # default of np.linalg.norm is to vectorize the data and compute the vector
         # norm, which is equivalent to the Frobenius norm for multidimensional arrays.
         # However, the argument 'fro' only works for 1-D and 2-D arrays currently.
-        return np.linalg.norm(self.data).item()
+        return np.linalg.norm(self.data.astype(np.float64, copy=False)).item()
 
     def nvecs(self, n: int, r: int, flipsign: bool = True) -> np.ndarray:
         """
